@@ -316,8 +316,7 @@ def intact_chains(N, ssz, slots):
 
 # signatures of the defects the unchanged tree is known to have (known_findings.d/C57.json); a case that shows
 # one of these and also some other violation is reported under the other one
-KNOWN_CLASSES = ("oracle:crash-size-allones", "oracle:crash-cross-linked", "oracle:crash-doublecheck-cross-linked",
-                 "oracle:size-sum-short-chain", "oracle:no-inode", "oracle:key-mix", "oracle:chain-slot-free",
+KNOWN_CLASSES = ("oracle:crash-cross-linked", "oracle:crash-doublecheck-cross-linked", "oracle:key-mix", "oracle:chain-slot-free",
                  "oracle:version-mix", "oracle:first-slot-mix", "oracle:key-from-metadata", "oracle:key-misplaced")
 
 
@@ -332,10 +331,6 @@ def violations(case, out):
     N, ssz, dbl, slots = parse_case(case)
     if not out.startswith("ok "):
         # why did it die? (only used to give the known defects their own signatures)
-        allones = any(s["kind"] == "H" and (s["esz"] == U64 or (isinstance(s["meta"], dict) and s["meta"]["ssz"] == U64))
-                      for s in slots)
-        if out.startswith("CRASH assert") and allones:
-            return [("oracle:crash-size-allones", "rebuild aborted on an image holding an all-ones size field: " + out[:80])]
         if out.startswith("CRASH assert") and cross_linked(N, ssz, slots):
             return [("oracle:crash-cross-linked", "rebuild aborted on an image whose chains are linked across keys: " + out[:80])]
         if out.startswith("CRASH exc") and dbl and cross_linked(N, ssz, slots):
